@@ -30,6 +30,8 @@ type GenInput struct {
 	LitTypes   []string `json:"litTypes"`
 	// generic interfaces for which the source also declares `type <Name>Alias = <Name>[targs]`
 	AliasOf []string `json:"aliasOf"`
+	// spelling of the module directive in go.mod: plain | tab | block | quoted | comment
+	GoMod string `json:"gomod"`
 }
 
 type c01 struct{ prop string }
@@ -134,6 +136,7 @@ func genGen(r *rand.Rand, idx int, stream string) GenInput {
 			}
 		}
 	}
+	in.GoMod = []string{"plain", "plain", "tab", "block", "quoted", "comment"}[r.Intn(6)]
 	in.LocalTypes, in.LitTypes, in.AliasOf = []string{}, []string{}, []string{}
 	for _, it := range in.Data.Ifaces {
 		if len(it.TypeParams) > 0 && r.Intn(2) == 0 {
@@ -245,7 +248,12 @@ func (p c01) Run(c *Ctx, raw json.RawMessage) Case {
 	defer os.RemoveAll(dir)
 	d := &in.Data
 	files := supportFiles()
-	files["go.mod"] = goModText + "\nrequire github.com/stretchr/testify v1.10.0\n"
+	modLine := map[string]string{"tab": "module\texample.com/m", "block": "module (\n\texample.com/m\n)", "quoted": "module \"example.com/m\" // the module",
+		"comment": "// the module directive follows\n\nmodule example.com/m // trailing comment"}[in.GoMod]
+	if modLine == "" {
+		modLine = "module example.com/m"
+	}
+	files["go.mod"] = modLine + "\n\ngo 1.23\n\nrequire github.com/stretchr/testify v1.10.0\n"
 	files["src/src.go"] = emitSource(d)
 	{
 		var lb strings.Builder
@@ -301,7 +309,7 @@ func (p c01) Run(c *Ctx, raw json.RawMessage) Case {
 	if err := writeFiles(dir, files); err != nil {
 		return Case{Oracle: fail("harness", "%v", err)}
 	}
-	tags := []string{"tmpl-" + in.Template, "fmt-" + in.Formatter, "place-" + d.Placement}
+	tags := []string{"tmpl-" + in.Template, "fmt-" + in.Formatter, "place-" + d.Placement, "gomod-" + in.GoMod}
 	if d.Stream != "" {
 		tags = append(tags, "stream-"+d.Stream)
 	}
